@@ -182,6 +182,39 @@ def run(ctx):
                     kind = 'raises' if real.startswith('ERR') else ('should-raise' if spec.startswith('ERR') else 'wrong-mapping')
                     ctx.spec_fail('%s|%s' % (name, kind), '%s does not map each key to its values in table order / strict' % name, case)
 
+    # ---- argument forms the two join families must treat alike (no model involved): prefixes that are not strings, keys given
+    # as negative positions; header and multiset of rows of the hash join = those of the merge join
+    from collections import Counter as _Counter
+    PAIRS = [('hashjoin', 'join'), ('hashleftjoin', 'leftjoin'), ('hashrightjoin', 'rightjoin'), ('hashantijoin', 'antijoin'), ('hashlookupjoin', 'lookupjoin')]
+    for ci in range(200 if ctx.thorough() else 60):
+        L = [['id', 'a']] + [[rng.choice([1, 2, 3]), rng.choice('xyz')] for _ in range(rng.choice([0, 1, 3, 4]))]
+        R = [['b', 'id']] + [[rng.choice('pq'), rng.choice([1, 2, 4])] for _ in range(rng.choice([0, 1, 3]))]
+        hname, mname = PAIRS[ci % len(PAIRS)]
+        form = rng.choice(['prefix', 'prefix', 'negative-rkey', 'negative-lkey', 'negative-both'])
+        if form == 'prefix':
+            if mname == 'antijoin':
+                continue
+            kw = {'lkey': 'id', 'rkey': 'id', 'lprefix': rng.choice([1, 2020, 2.5, True, 'l_', None]), 'rprefix': rng.choice([0, 7, 'r_', None])}
+        elif form == 'negative-rkey':
+            kw = {'lkey': 'id', 'rkey': -1}
+        elif form == 'negative-lkey':
+            kw = {'lkey': -2, 'rkey': 'id'}
+        else:
+            kw = {'lkey': -2, 'rkey': -1}
+        def show(fn):
+            try:
+                rows = [tuple(r) for r in getattr(etl, fn)(L, R, **kw)]
+                return (rows[0], _Counter(rows[1:]))
+            except Exception as e:   # noqa
+                return 'ERR ' + type(e).__name__
+        h, m = show(hname), show(mname)
+        ctx.case(('family-agreement', hname, repr(L), repr(R), repr(sorted(kw.items(), key=repr))))
+        ctx.count('family-agreement:' + form)
+        if h != m:
+            ctx.spec_fail('%s|differs-from-%s|%s' % (hname, mname, form), '%s and %s do not return the same header and multiset of rows' % (hname, mname),
+                          {'left': repr(L), 'right': repr(R), 'arguments': repr(kw), hname: repr(h), mname: repr(m)})
+
+    util.positional_call_cases(etl, rng, ctx, ['hashjoin', 'hashleftjoin'], 120 if ctx.thorough() else 36, 2)
 
 def replay(d):
     print('replay case:', d.get('case'))
